@@ -93,7 +93,7 @@ bool TextFile::readLine(String& s)
 			return false;
 		}
 		n = (int)strlen(*s + m) + m;
-		if (s[n-1] == '\n') {
+		if (n > 0 && s[n-1] == '\n') {
 			n--;
 			s[n] = '\0';
 			if (n > 0 && s[n-1] == '\r') {
